@@ -42,7 +42,7 @@ def renderShort (rl : RegList) : String :=
 def pred (p : String) : Option (Reg → Bool) :=
   match p.splitOn ":" with
   | ["kind", k] => k.toNat?.map (fun k r => r.kind == k)
-  | ["sortpar", k] => k.toNat?.map (fun k r => r.sort.toNat % 2 == k)
+  | ["sortpar", k] => k.toNat?.map (fun k r => r.sort.emod 2 == (k : Int))
   | ["addrlt", a] => a.toNat?.map (fun a r => r.address < a)
   | ["static"] => some (fun r => r.static)
   | ["writable"] => some (fun r => r.writable)
@@ -60,6 +60,16 @@ def regOp (rl : RegList) (op : String) : Option RegList :=
       if r.kind == 1 then acc.appendN [r] else if r.kind == 2 then acc.appendT [r] else if r.kind == 3 then acc.appendE [r] else acc.appendF [r]) rl)
   | ["f", p] => (pred p).map rl.filter
   | ["n", names] => some (rl.filterByName (if names = "" then [] else names.splitOn ","))
+  | ["s", spec] =>
+    -- a register with an arbitrary name and sort key: "<kind>.<sort>.<name>"
+    match spec.splitOn "." with
+    | [k, srt, name] => do
+      let k ← k.toNat?
+      let srt ← srt.toInt?
+      let r : Reg := { kind := k, category := "Verif", name := name, description := name, sort := srt, address := 7, static := false,
+                       writable := false, signed := false, factor := 1, offset := "0", unit := "", factory := "" }
+      pure (if k == 1 then rl.appendN [r] else if k == 2 then rl.appendT [r] else if k == 3 then rl.appendE [r] else rl.appendF [r])
+    | _ => none
   | _ => none
 
 /-! ### API layer (C09–C11) -/
@@ -172,8 +182,11 @@ def step (line : String) : String :=
       | some i => s!"differs:{i}"
     | _ => "bad-op"
   | "RL" :: ops =>
-    match ops.foldl (fun (acc : Option RegList) o => acc.bind (fun rl => regOp rl o)) (some {}) with
-    | some rl => s!"{rl.len} {renderShort rl} {String.intercalate "," (rl.getRegisters.map short)}"
+    -- "k" keeps the list value of that moment (values are immutable: later operations cannot reach it)
+    match ops.foldl (fun (acc : Option (RegList × List RegList)) o => acc.bind (fun (rl, kept) =>
+        if o = "k" then some (rl, kept ++ [rl]) else (regOp rl o).map (fun rl' => (rl', kept)))) (some ({}, [])) with
+    | some (rl, kept) => s!"{rl.len} {renderShort rl} {String.intercalate "," (rl.getRegisters.map short)}" ++
+        String.join (kept.map (fun k => s!" K{k.len} {renderShort k}"))
     | none => "bad-op"
   | [k, idx, outcome] =>
     if k = "RN" ∨ k = "RT" ∨ k = "RE" ∨ k = "RF" then
